@@ -28,7 +28,7 @@ func (ex *Ex) hardcoded(fr *Frame, st *State, ins ssa.Instruction, callee *ssa.F
 		ex.note("extern axiom: strings.Contains == str.contains")
 		k(st, Val{T: App("str.contains", SBool, targ(0), targ(1))})
 		return true
-	case "reflect.TypeOf":
+	case "reflect.TypeOf", "internal/reflectlite.TypeOf":
 		ex.note("extern axiom: reflect.TypeOf(x) is determined by the dynamic type of x (nil for nil)")
 		x := targ(0)
 		rt := MkIface(App("T$reflect.rtype", SInt), App("rtref", SRef, Dyn(x)))
@@ -96,6 +96,9 @@ func (ex *Ex) reflectInvoke(fr *Frame, st *State, recv *T, method string, args [
 	switch method {
 	case "Comparable":
 		return App("comparable", SBool, id), true
+	case "Elem":
+		el := App("f$elemT", SInt, id)
+		return MkIface(App("T$reflect.rtype", SInt), App("rtref", SRef, el)), true
 	case "String":
 		return App("x$typeString", SString, id), true
 	case "PkgPath":
@@ -103,7 +106,7 @@ func (ex *Ex) reflectInvoke(fr *Frame, st *State, recv *T, method string, args [
 	case "Implements":
 		return App("x$implements", SBool, id, App("rtid", SInt, ValOf(args[0].T))), true
 	case "AssignableTo":
-		return App("x$assignable", SBool, id, App("rtid", SInt, ValOf(args[0].T))), true
+		return App("f$assignableT", SBool, id, App("rtid", SInt, ValOf(args[0].T))), true
 	}
 	return nil, false
 }
@@ -146,6 +149,6 @@ func (ex *Ex) frameMapCheck(fr *Frame, st *State, ins ssa.Instruction, m *T) {
 // ---------------- ghost frame levels (C16) ----------------
 
 func (ex *Ex) assumeLevelPost(cf *Frame, st *State, ctr *Contract, args []Val, results []SV) {}
-func (ex *Ex) checkLevelPost(fr *Frame, st *State, ctr *Contract, results []SV)             {}
+func (ex *Ex) checkLevelPost(fr *Frame, st *State, ctr *Contract, results []SV)              {}
 
 var _ = types.Typ
